@@ -27,6 +27,9 @@ import interp_py as ip
 FR = Fraction
 TOL = FR(1, 10 ** 12)
 COND_MIN = 1e-6
+AMP_MAX = 100.0
+AMP_SKIP = 1e7
+RFI_CONSTS = [None, None, 5]
 
 
 # ----------------------------------------------------------------------------- number helpers
@@ -332,10 +335,28 @@ def cmp_rfi_values(case, cvals, exp, stats):
         if cond < COND_MIN:
             stats["illcond"] += 1
             continue
+        # cancellation compounds over the m(m-1)/2 steps (orders 4, 5 outside the knots): the
+        # tolerance is 1e-12 while the product of the per-step amplifications stays below AMP_MAX,
+        # grows in proportion beyond, and nothing is asserted beyond AMP_SKIP
+        amp = amplification_of(case, q) if getattr(case, "m", 5) >= 3 or case.op in ("param", "ipar") else 1.0
+        if amp > AMP_SKIP:
+            stats["illcond"] += 1
+            continue
         stats["interp"] += 1
-        if not (close(cv[0], mv[0], scale) and close(cv[1], mv[1], scale)):
+        loose = FR(max(1.0, amp / AMP_MAX))
+        if not (abs(cv[0] - mv[0]) <= TOL * loose * max(abs(mv[0]), scale) and abs(cv[1] - mv[1]) <= TOL * loose * max(abs(mv[1]), scale)):
             return "query %d (x = %s): C %s vs model %s (cond %.2e)" % (i, float(q), fl2(cv), fl2(mv), cond)
     return None
+
+
+def amplification_of(case, q):
+    n = len(case.xp)
+    m = case.m if case.op in ("rfi", "run") else min(n, RFI_CONSTS[2])
+    try:
+        v, h, trc = ip.rfi_full(RFI_CONSTS[0], RFI_CONSTS[1], case.xp, case.yp, n, m, q, getattr(case, "hint", 0))
+    except ip.Fault:
+        return 1.0
+    return ip.amplification(trc)
 
 
 def fl2(v):
@@ -391,6 +412,111 @@ def gen_rfi_cases(rng, count, max_m):
         else:
             out.append(Case("run", xp=xp, yp=yp, m=m, hint=hint, qs=queries(rng, xp, rng.randint(2, 6))))
     return out
+
+
+def rational_of_order(rng, m, xs):
+    """A rational function of the type the m-point recurrence reproduces (numerator degree
+    (m-1)//2, denominator degree m//2, monic), complex coefficients, poles away from the knots:
+    -> f(x) as a pair of Fractions."""
+    dn, dd = (m - 1) // 2, m // 2
+    num = [(FR(rng.randint(-12, 12), 4), FR(rng.randint(-12, 12), 4)) for _ in range(dn + 1)]
+    if num[-1] == (0, 0):
+        num[-1] = (FR(1), FR(1, 2))
+    big = max(abs(v) for v in xs) + 2
+    # denominator = product of (x + r_k), r_k beyond the knots or off the real axis
+    roots = []
+    for _ in range(dd):
+        if rng.random() < 0.5:
+            roots.append((big + FR(rng.randint(0, 16), 4), FR(rng.randint(-8, 8), 4)))
+        else:
+            roots.append((FR(rng.randint(-8, 8), 4), FR(rng.randint(4, 16), 4) * rng.choice((-1, 1))))
+
+    def f(x):
+        p = (FR(0), FR(0))
+        for cf in reversed(num):
+            p = ip.cadd(ip.cmul(p, (x, FR(0))), cf)
+        q = (FR(1), FR(0))
+        for r in roots:
+            q = ip.cmul(q, (x + r[0], r[1]))
+        return ip.cdiv(p, q)
+    return f
+
+
+def gen_window_cases(rng, R, thorough):
+    """Directed cases for the case splits of RfiWindow / RfiRationalN: vectors longer than the
+    order, the selected window at the left edge, in the interior and at the right edge, queries
+    outside the knots on both sides, on both halves of a segment and next to a knot, extreme hints;
+    data sampled from a rational function of the type that order reproduces (truth = its value)."""
+    out = []
+    reps = 1 if not thorough else 6
+    for m in range(1, R.max_m + 1):
+        for n in sorted(set([m, m + 1, m + 2, m + 4, 8])):
+            if n < max(m, 2):
+                continue
+            for _ in range(reps):
+                for attempt in range(8):           # (the model's add_eps needs non-zero real parts)
+                    xp = knots(rng, n, kind="dy")
+                    f = rational_of_order(rng, max(m, 2), xp)
+                    yp = []
+                    for v in xp:
+                        a, b = f(v)
+                        yp.append((FR(float(a)), FR(float(b))))
+                    if all(v[0] != 0 for v in yp):
+                        break
+                else:
+                    continue
+                span = xp[-1] - xp[0]
+                qs = [FR(float(xp[0] - span / 8)), FR(float(xp[-1] + span / 8))]
+                for i in range(n - 1):
+                    g = xp[i + 1] - xp[i]
+                    qs.append(xp[i] + g * FR(rng.choice((1, 2, 3)), 8))          # nearer to the left knot
+                    qs.append(xp[i] + g * FR(rng.choice((5, 6, 7)), 8))          # nearer to the right knot
+                for i in (0, n // 2, n - 1):                                      # next to a knot, both sides
+                    qs.append(FR(float(xp[i] + span / 2 ** 20)))
+                    qs.append(FR(float(xp[i] - span / 2 ** 20)))
+                for q in qs:
+                    hint = rng.choice([-2 ** 31, 0, n - 2, n + 5, rng.randint(0, n - 1)])
+                    out.append(Case("rfi", xp=xp, yp=yp, m=m, hint=hint, qs=[q], truth=[f(q)] if m >= 2 else None))
+    return out
+
+
+def window_class(R, case):
+    """('left' | 'interior' | 'right' | 'whole' | None, cur) for a one-query rfi case."""
+    n = len(case.xp)
+    try:
+        w = ip.window(R.eps, case.xp, n, case.m, case.qs[0], case.hint)
+    except ip.Fault:
+        return None
+    if w is None:
+        return None
+    base, cur = w
+    pos = "whole" if n == case.m else ("left" if base == 0 else ("right" if base == n - case.m else "interior"))
+    return pos, cur
+
+
+def check_truth(R, case, co):
+    """Property-level comparison for data sampled from a rational function of matching type: the
+    implementation's value against the function itself (1e-8 of the data scale: the knot values
+    are rounded to binary64), where the recurrence completed and is well conditioned."""
+    if getattr(case, "truth", None) is None or co is None:
+        return None
+    n = len(case.xp)
+    try:
+        v, h, trc = ip.rfi_full(R.eps, R.cut, case.xp, case.yp, n, case.m, case.qs[0], case.hint)
+    except ip.Fault:
+        return None
+    if len(trc) != case.m * (case.m - 1) // 2 or ip.cond(trc) < COND_MIN or ip.amplification(trc) > AMP_MAX:
+        return None
+    toks = [t for t in co[1:] if not t.startswith("seg=")]
+    cv = (cfloat(toks[0]), cfloat(toks[1]))
+    if isbad(*cv):
+        return "non-finite value %s" % fl2(cv)
+    scale = max(abs(y[0]) + abs(y[1]) for y in case.yp)
+    t = case.truth[0]
+    if abs(cv[0] - t[0]) > scale / 10 ** 8 or abs(cv[1] - t[1]) > scale / 10 ** 8:
+        return ("order %d on %d knots sampled from a rational function of matching type: C returns %s at x = %s, the function is %s"
+                % (case.m, n, fl2(cv), float(case.qs[0]), fl2(t)))
+    return "ok"
 
 
 def gen_param_cases(rng, count, fext):
@@ -590,7 +716,8 @@ def run(ctx):
         ctx.obligation("T6:translate", False, str(e))
         broken["T6:translate"] = "translator: " + str(e)
     vfiles = ["Interp/QOrd.v", "Interp/RfiModel.v", "Interp/SplineModel.v", "Gen/RangeGen.v", "Interp/RfiProofs.v",
-              "Interp/SplineProofs.v", "Interp/RangeProofs.v", "Interp/RfiRational.v", "Interp/C10Lemmas.v", "Properties_C10.v"]
+              "Interp/SplineProofs.v", "Interp/RangeProofs.v", "Interp/RfiRational.v", "Interp/C10Lemmas.v", "Interp/RfiWindow.v",
+              "Interp/RfiRationalN.v", "Interp/RfiRationalEx.v", "Properties_C10.v"]
     vfiles = [v for v in vfiles if os.path.exists(os.path.join(vplib.COQDIR, v))]
     if tr is None:
         # Gen/RangeGen.v on disk is stale: the theorems that depend on it are not discharged
@@ -610,6 +737,7 @@ def run(ctx):
     exe = ctx.build_harness("interp_harness", san=True)
     drv = ctx.ocaml_driver("drv_interp")
     R = Runner(ctx, exe, drv, tr)
+    RFI_CONSTS[0], RFI_CONSTS[1], RFI_CONSTS[2] = R.eps, R.cut, R.max_m
     rng = ctx.rng
     stats = {"knot": 0, "interp": 0, "illcond": 0}
     ctx.extra["constants"] = dict((k, str(v)) for k, v in tr["consts"].items())
@@ -638,6 +766,8 @@ def run(ctx):
     nrng = 24 if not thorough else 200
     cases = corpus + [Case("zero")]
     cases += gen_rfi_cases(rng, nrfi, R.max_m)
+    wcases = gen_window_cases(rng, R, thorough)
+    cases += wcases
     cases += gen_param_cases(rng, npar, R.fext)
     cases += gen_spline_cases(rng, nspl, R.min_dx)
     rcases = gen_range_cases(rng, nrng)
@@ -648,7 +778,8 @@ def run(ctx):
             rcases.append((c, "range_m_error", classify(c.cf[0], c.cf[-1], c.xp[0], c.xp[-1]), c.cf[0], c.cf[-1], c.xp[0], c.xp[-1]))
         elif c.op == "apply":
             rcases.append((c, "range_apply", classify(c.qs[0], c.qs[-1], c.cf[0], c.cf[-1]), c.qs[0], c.qs[-1], c.cf[0], c.cf[-1]))
-    ctx.extra["generated"] = {"rfi/run": nrfi, "param/ipar": npar, "spline/corr": nspl, "range decisions": len(rcases)}
+    ctx.extra["generated"] = {"rfi/run": nrfi, "rfi window-directed": len(wcases), "param/ipar": npar, "spline/corr": nspl,
+                              "range decisions": len(rcases)}
 
     couts, sig, err = R.run_c(cases + [rc[0] for rc in rcases])
     if sig is not None:
@@ -660,6 +791,7 @@ def run(ctx):
 
     # rfi-type cases
     failures = []
+    wcover = {}
     for case, co in zip(cases, couts):
         if case.op in ("rfi", "run", "param", "ipar"):
             try:
@@ -670,6 +802,16 @@ def run(ctx):
             for q in case.qs:
                 ctx.count((case.op, tuple(case.xp), getattr(case, "m", 0), getattr(case, "hint", 0), q) if n >= 2 else None)
             ctx.traces_validated += 1
+            if r is None and hasattr(case, "truth"):
+                wc = window_class(R, case)
+                if wc is not None:
+                    wcover[(case.m, wc[0])] = wcover.get((case.m, wc[0]), 0) + 1
+                    ctx.count(("window", case.m, n, wc[0], wc[1]))
+                t = check_truth(R, case, co)
+                if t == "ok":
+                    stats["rational_vs_function"] = stats.get("rational_vs_function", 0) + 1
+                elif t is not None:
+                    r = t
             if r is not None:
                 failures.append((case, r))
             elif len(ctx.samples) < 3 and n >= 3 and case.op == "run":
@@ -693,6 +835,13 @@ def run(ctx):
         if r is not None:
             failures.append((case, r))
     ctx.log("rfi", stats, "spline", sstats, "failures", len(failures))
+    # the directed cases must have reached every case split of the window selection
+    want = [(m, pos) for m in range(2, R.max_m + 1) for pos in ("left", "interior", "right", "whole")]
+    missing = [w for w in want if not wcover.get(w)]
+    ctx.extra["window_positions_compared"] = dict(("m=%d/%s" % k, v) for k, v in sorted(wcover.items()))
+    if not failures:
+        ctx.obligation("tie:window positions (left edge, interior, right edge, whole vector) compared for every order 2..%d" % R.max_m,
+                       not missing, "not reached: %s" % missing if missing else "")
     ctx.extra["rfi_comparisons"] = stats
     ctx.extra["spline_comparisons"] = sstats
 
